@@ -315,9 +315,14 @@ class NPW(NP):
     def asarray(x, dtype=None): return LArr(list(x) if isinstance(x, (list, tuple)) else [x])
     @staticmethod
     def atleast_1d(a): return a
+    @staticmethod
+    def longdouble(x): return x
 
 
 class FakeOSW:
+    W_OK = 2; R_OK = 4
+    @staticmethod
+    def access(p, mode): return p == '/md'          # the channel directory is writable; it holds no properties file yet
     class path:
         @staticmethod
         def join(*a): return '/'.join(a)
@@ -334,10 +339,16 @@ def _writer(existing):
         p = '/md/1970-01-01T00-00-00/md@%d.h5' % (j * W)
         if p not in st.files: st.files[p] = Group()
         g = st.files[p].create_group(K(s)); g.create_dataset('v', data=('old', s))
-    w = M.DigitalMetadataWriter.__new__(M.DigitalMetadataWriter)
-    w._metadata_dir = '/md'; w._file_cadence_secs = W; w._subdir_cadence_secs = 1000; w._file_name = 'md'
-    w._samples_per_second = Rate(); w._sample_rate_numerator = 1; w._sample_rate_denominator = 1; w._fields = ['v']
     M.h5py = FakeH5(st); M.np = NPW; M.os = FakeOSW
+    # built by the REAL constructor (every attribute it sets exists); only the properties file of the new channel is not written
+    cls = M.DigitalMetadataWriter
+    oldw = cls._write_properties
+    cls._write_properties = lambda self: None
+    try:
+        w = cls('/md', 1000, W, 1, 1, 'md')
+    finally:
+        cls._write_properties = oldw
+    w._samples_per_second = Rate(); w._fields = ['v']
     return w, st
 
 
@@ -392,6 +403,33 @@ def _write_dict_forms(a: int, d1: int, d2: int, slen: int) -> bool:
         good = (good and g['per'].val == [10, 20, 30][i] and g['all'].val == 7 and g['pair'].val == [1, 2] and g['txt'].val == text
                 and g['sub/x'].val == [4, 5, 6][i] and g['sub/t'].val == text)
     return good
+
+
+def _file_of2(s):
+    j = 0 if s < W else (1 if s < 2 * W else (2 if s < 3 * W else 3))
+    return '/md/%s/md@%d.h5' % ('1970-01-01T00-00-00' if j < 2 else '1970-01-01T00-03-20', j * W)
+
+
+def _write_subdirs(a: int, d1: int, d2: int, e2: int) -> bool:
+    """
+    pre: 0 <= a and 1 <= d1 and 1 <= d2 and a + d1 + d2 < 400
+    pre: 0 <= e2 < 400 and e2 != a and e2 != a + d1 and e2 != a + d1 + d2
+    post: _
+    """
+    # subdirectory cadence = 2 files: one batch write of three ascending samples (possibly straddling the subdirectory boundary), then a
+    # second write call on the SAME writer object with any other index (earlier or later: back-filled metadata).  Every sample ends up in the
+    # file of its index inside the subdirectory of that file -- placement does not depend on what was written before
+    w, st = _writer([])
+    w._subdir_cadence_secs = 200
+    samples = [a, a + d1, a + d1 + d2]
+    w.write(samples, [{'v': ('new', x)} for x in samples])
+    w.write([e2], [{'v': ('new', e2)}])
+    good = st.open_now == 0
+    for s in samples + [e2]:
+        f = st.files.get(_file_of2(s))
+        good = good and f is not None and K(s) in f and f[K(s)]['v'].val == ('new', s)
+    total = sum(len(f.items_) for f in st.files.values())
+    return good and total == 4
 
 
 def _write_witness(e: int, a: int) -> bool:
